@@ -13,7 +13,7 @@
    dropped: known finding F6 is a concrete asymmetry).  The metamorphic replay of every generated game through the
    real crate (sym) checks the same on the implementation. *)
 From Coq Require Import NArith List Bool.
-From Arimaa Require Import Types U64 Board Engine Cells Rules Monitors Invariant Live Reach ResultLemmas Traps RepInv Material Symmetry.
+From Arimaa Require Import Types U64 Board Engine Cells Rules Monitors Invariant Live Reach ResultLemmas Traps RepInv Material Symmetry SymExample.
 Import ListNotations.
 Open Scope N_scope.
 
@@ -160,6 +160,16 @@ Theorem C11_flip_game_withheld : forall s s' G G' b0 b0', SymGame flip_sq flip_d
      (In (Move i d) (valid_actions s) <-> In (Move (flip_sq i) (flip_dir d)) (valid_actions s'))).
 Proof. exact flip_game_withheld. Qed.
 Print Assumptions C11_flip_game_withheld.
+
+(* the hypotheses of the whole-game theorems are satisfiable: a concrete position (Gold R c2, D d2; Silver r c7, c d7;
+   Gold to move) and its colour-swapped rank-flipped image form a SymGame, a step is offered, and the game proceeds *)
+Theorem C11_game_nonvacuous :
+  let s := mkstart ex_b true in let s' := mkstart ex_b' false in
+  SymGame flip_sq flip_dir negb s s' [(ex_b, true)] [(ex_b', false)] ex_b ex_b' /\
+  In (Move 50 Up) (valid_actions_no_rep s) /\ In (Move (flip_sq 50) (flip_dir Up)) (valid_actions_no_rep s') /\
+  exists G G' b0 b0', SymGame flip_sq flip_dir negb (take_action s (Move 50 Up)) (take_action s' (Move (flip_sq 50) (flip_dir Up))) G G' b0 b0'.
+Proof. exact sym_game_nonvacuous. Qed.
+Print Assumptions C11_game_nonvacuous.
 
 Theorem C11_swapped_results : tres negb (Some RGold) = Some RSilver /\ tres negb (Some RSilver) = Some RGold /\ tres negb None = None /\
   tres (fun o => o) (Some RGold) = Some RGold.
